@@ -84,6 +84,7 @@ package tor
 //@   modifies t.Info, t.infoBitmap, t.infoRequested
 //@   ensures  [ok]    MetaOK(t)
 //@   ensures  [size]  $r0 == nil ==> len(t.Info) == int(size)
+//@   ensures  [reset] !samearr_(t.Info, old(t.Info)) || len(t.Info) != old(len(t.Info)) ==> t.infoBitmap == nil && fresh_(t.infoRequested)
 //@   ensures  [state] t.infoComplete == old(t.infoComplete)
 //@   props    C12 C05
 
@@ -100,3 +101,21 @@ package tor
 //@   loop 1
 //@     invariant 0 <= i && i <= chunks
 //@   props    C12 C05
+
+// WriteTorrent: the dictionary handed to the encoder carries the raw info
+// dictionary (hence the same info-hash) and every tracker tier: the full
+// announce-list unless there is exactly one tracker in exactly one tier.
+//@ func WriteTorrent
+//@   requires t != nil && w != nil
+//@   requires forall i int :: 0 <= i && i < len(t.trackers) ==> (forall j int :: 0 <= j && j < len(t.trackers[i]) ==> t.trackers[i][j] != nil)
+//@   requires forall i int :: 0 <= i && i < len(t.webseeds) ==> t.webseeds[i] != nil
+//@   modifies *
+//@   assertcall [tiers] (*Encoder).Encode :: !(len(t.trackers) == 1 && len(t.trackers[0]) == 1) ==> len(al) == len(t.trackers) && (forall i int :: 0 <= i && i < len(al) ==> len(al[i]) == len(t.trackers[i]))
+//@   loop 1
+//@     invariant len(as) == len(t.trackers) && fresh_(as)
+//@     invariant forall k int :: 0 <= k && k < $i ==> len(as[k]) == len(t.trackers[k])
+//@   loop 2
+//@     invariant len(as[i]) == len(v) && fresh_(as[i])
+//@   maypanic
+//@   waive    nil :: non-nil-ness of the tracker and web-seed interface values read from the tables is NOT proved (the tables hold only what tracker.New/webseed.New returned non-nil; not under contract)
+//@   props    C13
